@@ -1,9 +1,18 @@
-import BufProofs.Lemmas.BreakingAdditive
+import BufProofs.Lemmas.BreakingWitness
 /-
   C04 — Compatible changes are never reported and breaking categories are ordered.
   Property theorems only (helper lemmas: BufProofs/Lemmas/Breaking*.lean).  The model is
   BufModel/Breaking.lean; rule → category membership and the compatibility groups are the
   REGENERATED BufGen/BreakingTables.lean, so the `decide`s below are re-run against /repo's tables.
+
+  `additive_clean` is stated for the relation `⊑ₐ` on the model datatype (its doc comment says exactly
+  what that is and which source-level edits it does and does not cover); `additive_edits_clean` is the
+  same statement for sequences of the additive EDIT OPERATORS of Lemmas/BreakingEdits.lean;
+  `additive_first_enum_value_counterexample` is the source-additive edit that is NOT covered and that
+  buf does report.  Non-vacuity: the chain `W.aS0 → W.aS1 → W.aS2` and the pairs `W.aDel`,
+  `W.wPrev → W.wCur` of Lemmas/BreakingWitness.lean; hypotheses are established by the executable
+  checkers `wfB`, `schemaExtB`, `kindsOkB` through their soundness theorems
+  (`WF_of_wfB`, `schemaExtB_sound`, `KindsOK_of_kindsOkB`, Lemmas/BreakingDecide.lean).
 -/
 namespace BufProofs.C04
 open BufModel.Schema BufModel.Breaking BufProofs.Breaking
@@ -15,14 +24,54 @@ theorem self_clean (v : Ver) (cat : String) (s : Schema) (hw : WF s) : check v c
   unfold check
   exact flatMap_nil _ _ fun id _ => runRule_nil hw (SchemaExt.refl s).flat id
 
-/-- A version that only adds things (new files, messages, enums, services, RPCs, oneofs, reserved
-    ranges and names, enum values with fresh numbers, non-required fields with fresh numbers) reports
-    nothing in any category and config version.  Proved through "the handlers iterate over the
-    PREVIOUS schema only": every previous element has an only-extended counterpart. -/
+/-- A version that only adds things reports nothing in any category and config version.
+
+    WHAT `prev ⊑ₐ cur` SAYS (Lemmas/BreakingAdditive.lean, `SchemaExt` / `FileExt` / `MsgExt`,
+    Lemmas/BreakingClean.lean `InfoExt` / `EnumExt` / `SvcExt`).  It is a relation on the MODEL
+    datatype — the descriptors as bufprotosource / protoreflect present them to the rule handlers,
+    DERIVED facts included — not on `.proto` source text.  Every previous file has a current file
+    with the same path, package, syntax and tracked option values in which
+    * every previous message, at any depth, has a same-named counterpart under the counterpart of
+      its parent, whose previous FIELD RECORDS are all still present UNCHANGED — number, name, JSON
+      name, label, type, resolved kind, type name, oneof, presence, jstype and also the resolved
+      `features.utf8_validation` and the resolved `Default()` —, whose other fields have fresh
+      numbers and are not `required`; previous oneofs (by name), reserved ranges / names, extension
+      ranges and nested extensions are still there; `no_standard_descriptor_accessor` and the
+      resolved JSON format are unchanged;
+    * every previous enum has a same-named counterpart with the same closedness and JSON format
+      that still has every previous (name, number) value, reserved range and reserved name;
+    * every previous service has a same-named counterpart with every previous method unchanged;
+    * declaration ORDER is free everywhere (all clauses are by membership), new elements may be
+      inserted anywhere.
+    SOURCE-LEVEL edits this covers: adding files, messages (any depth), enums, services, RPCs,
+    oneofs, non-required fields with fresh numbers (also as new members of an existing oneof),
+    reserved ranges / names, extension ranges, extensions, enum values and aliases — PROVIDED the
+    edit leaves every derived fact of every old element as it was.
+    SOURCE-LEVEL additive edits it does NOT cover, because they change a derived fact of an old field:
+    inserting a new FIRST value into a CLOSED (proto2 / editions `enum_type = CLOSED`) enum changes
+    `Default()` of every optional field of that enum type without an explicit default — the old
+    field record is no longer a member of the new message, `⊑ₐ` fails, and buf v2 really reports
+    FIELD_SAME_DEFAULT in all four categories: `additive_first_enum_value_counterexample`.
+    (Appending the value, or inserting it first into an OPEN enum whose first value stays 0, is
+    covered.)  Covered although arguably breaking: adding an editions field with
+    `features.field_presence = LEGACY_REQUIRED` — its proto label stays `optional`, buf's
+    MESSAGE_SAME_REQUIRED_FIELDS reads the label and is silent, and the model follows the code.
+
+    Proved through "the handlers iterate over the PREVIOUS schema only": every previous element has
+    an only-extended counterpart. -/
 theorem additive_clean (v : Ver) (cat : String) (prev cur : Schema) (hw : WF cur) (h : prev ⊑ₐ cur) :
     check v cat cur prev = [] := by
   unfold check
   exact flatMap_nil _ _ fun id _ => runRule_nil hw h.flat id
+
+/-- The same statement on EDIT OPERATORS: any sequence of the additive operators of
+    Lemmas/BreakingEdits.lean (`SchemaEdit`: add a file / top-level or nested message / enum / service /
+    extension / RPC / oneof / non-required field with a fresh number / enum value or alias / reserved
+    range or name / extension range, at any list position and any nesting depth; re-locate) applied to
+    `prev` yields a version that is clean against `prev` in every category and config version. -/
+theorem additive_edits_clean (v : Ver) (cat : String) (prev cur : Schema) (hw : WF cur)
+    (h : SchemaEdits prev cur) : check v cat cur prev = [] :=
+  additive_clean v cat prev cur hw h.sound
 
 /-- `⊑ₐ` is reflexive and closed under composition, so in a chain S₀ → S₁ → … → Sₙ of additive
     edits every Sᵢ compared against every earlier Sⱼ is clean. -/
@@ -197,7 +246,100 @@ theorem hierarchy (v : Ver) (cur prev : Schema) (hk : KindsOK cur) :
   · exact ⟨step _ _ _ ht.2.1.1.1 cur prev hk, step _ _ _ ht.2.1.1.2 cur prev hk, step _ _ _ ht.2.1.2 cur prev hk⟩
   · exact ⟨step _ _ _ ht.2.2.1.1 cur prev hk, step _ _ _ ht.2.2.1.2 cur prev hk, step _ _ _ ht.2.2.2 cur prev hk⟩
 
+/-! ### the source-additive edit that is NOT `⊑ₐ` (and that buf reports) -/
+
+/-- proto2 `enum Level { LOW = 1; HIGH = 2; }  message Cfg { optional Level level = 1; }` versus the
+    same file with `NONE = 0;` inserted in FRONT of the enum (`W.cxP`, `W.cxC`).  At the source level
+    nothing but one enum value was added: the enum pair satisfies `EnumExt`, every message, field and
+    enum name and number is unchanged.  But `Default()` of `level` moved from LOW = 1 to NONE = 0, so
+    the previous field record is not a field of the current message: `cxP ⊑ₐ cxC` is FALSE, and the
+    detector — like buf with a v2 config (`extra.head_insert_enum_value_reports` of the C04 harness) —
+    reports FIELD_SAME_DEFAULT at the field in all four categories.  Configs v1beta1 / v1 do not have
+    the rule and stay silent. -/
+theorem additive_first_enum_value_counterexample :
+    EnumExt (W.enm "Level" [⟨"LOW", 1⟩, ⟨"HIGH", 2⟩]) (W.enm "Level" [⟨"NONE", 0⟩, ⟨"LOW", 1⟩, ⟨"HIGH", 2⟩]) ∧
+    WF W.cxC ∧
+    (∀ cat ∈ allCats, check .v2 cat W.cxC W.cxP = [⟨"FIELD_SAME_DEFAULT", "cfg.proto", [4, 0, 2, 0]⟩]) ∧
+    (∀ cat ∈ allCats, check .v1 cat W.cxC W.cxP = [] ∧ check .v1beta1 cat W.cxC W.cxP = []) ∧
+    ¬ (W.cxP ⊑ₐ W.cxC) := by
+  have hw : WF W.cxC := WF_of_wfB _ (by decide)
+  have h2 : ∀ cat ∈ allCats, check .v2 cat W.cxC W.cxP = [⟨"FIELD_SAME_DEFAULT", "cfg.proto", [4, 0, 2, 0]⟩] := by
+    decide
+  refine ⟨by decide, hw, h2, by decide, fun h => ?_⟩
+  have := additive_clean .v2 "WIRE" _ _ hw h
+  rw [h2 "WIRE" (by decide)] at this
+  cases this
+
 /-! ### non-vacuity -/
+
+section chain
+open W
+
+/-- `additive_clean` on the concrete chain `aS0 → aS1 → aS2` (Lemmas/BreakingWitness.lean: new first
+    file / message / field / RPC, a message and a field at depth 3, a nested enum at depth 2, enum
+    value + alias, oneof, reserved range and name, extension range, new enum and service): both
+    hypotheses hold (`aS1_wf : WF aS1`, `aS01 : aS0 ⊑ₐ aS1`, established by the executable checkers
+    `wfB`, `schemaExtB` and their soundness theorems), hence every category of every version is clean -/
+example : ∀ v cat, check v cat aS1 aS0 = [] := fun v cat => additive_clean v cat aS0 aS1 aS1_wf aS01
+example : ∀ v cat, check v cat aS2 aS1 = [] := fun v cat => additive_clean v cat aS1 aS2 aS2_wf aS12
+/-- … which is not because `check` is silent on these schemas: the reverse comparison is dirty -/
+example : check .v2 "WIRE" aS0 aS1 ≠ [] := by decide
+
+/-- `additive_chain_clean` on the chain of three: the hypotheses `AddChain aS0 [aS1, aS2]` and `WF` of
+    all three hold, and the conclusion contains the NON-adjacent comparison `aS2` against `aS0` -/
+example : ∀ v cat, check v cat aS1 aS0 = [] ∧ check v cat aS2 aS0 = [] ∧ check v cat aS2 aS1 = [] := by
+  intro v cat
+  have hc : AddChain aS0 [aS1, aS2] := ⟨aS01, aS12, trivial⟩
+  have hw : ∀ s ∈ [aS0, aS1, aS2], WF s := by
+    intro s hs
+    simp only [List.mem_cons, List.not_mem_nil, or_false] at hs
+    rcases hs with rfl | rfl | rfl
+    · exact aS0_wf
+    · exact aS1_wf
+    · exact aS2_wf
+  have h := additive_chain_clean v cat aS0 [aS1, aS2] hc hw
+  simp only [List.pairwise_cons, List.mem_cons, List.not_mem_nil, or_false, forall_eq_or_imp, forall_eq] at h
+  exact ⟨h.1.1, h.1.2, h.2.1⟩
+
+/-- `additive_edits_clean` / the operator catalogue: two operators in sequence on `aS1` — a new file in
+    front, then a field added to `Order.Line.Tax` at depth 3 (`FileEdit.message` ∘ `MsgEdit.nested` ∘
+    `MsgEdit.nested` ∘ `MsgEdit.info` ∘ `InfoEdit.addField`); the resulting schema is computed by the
+    operators -/
+example : ∃ s', SchemaEdits aS1 s' ∧ (allMsgs s').map (fun m => (m.nested, m.info.fields.map (·.name))) =
+    [(["Payment"], ["amount"]), (["Audit"], []), (["Order"], ["note", "id", "status"]), (["Order", "Line"], ["sku"]),
+     (["Order", "Line", "Tax"], ["rate"])] :=
+  ⟨_, .step (.step (.refl _) (.addFile [] _ payFile))
+      (.file [payFile] [] _ _ (.message _ [.mk (info "Audit") []] [] _ _ rfl
+        (.nested _ [] [] _ _ (.nested _ [] [] _ _
+          (.info _ _ _ (.addField _ [] [] (fld 1 "rate" .double) rfl (by decide) (by decide))))))),
+   by decide⟩
+
+/-- `cosmetic_clean`: dropping every source location of `aS2` (a copy without SourceCodeInfo) -/
+example : ∀ v cat, check v cat (aS2.map fun f => { f with locs := [] }) aS2 = [] :=
+  fun v cat => cosmetic_clean v cat aS2 (fun _ => []) (WF_of_wfB _ (by decide))
+
+/-- `hierarchy` instantiated: its hypothesis `KindsOK` holds for a schema with fields, enums-typed
+    fields included (`KindsOK_of_kindsOkB`, the driver's `kinds=1`).  `aDel` is `aS1` with field 3 of
+    Order deleted and its number and name reserved: dirty under FILE and PACKAGE … -/
+example : check .v2 "FILE" aDel aS1 = [⟨"FIELD_NO_DELETE", "shop/v1/order.proto", [4, 1]⟩] ∧
+    check .v2 "PACKAGE" aDel aS1 = [⟨"FIELD_NO_DELETE", "shop/v1/order.proto", [4, 1]⟩] := by decide
+/-- … clean under WIRE_JSON, and THEREFORE (by `hierarchy`, not by evaluation) clean under WIRE -/
+example : check .v2 "WIRE" aDel aS1 = [] :=
+  (hierarchy .v2 aDel aS1 (KindsOK_of_kindsOkB _ (by decide))).2.2 (by decide)
+/-- the contrapositive direction on the big C03 witness pair (every edit family at once): it is dirty
+    under WIRE, therefore dirty under WIRE_JSON, PACKAGE and FILE -/
+example : check .v2 "WIRE_JSON" wCur wPrev ≠ [] ∧ check .v2 "PACKAGE" wCur wPrev ≠ [] ∧
+    check .v2 "FILE" wCur wPrev ≠ [] := by
+  have hk : KindsOK wCur := KindsOK_of_kindsOkB _ (by decide)
+  have h := hierarchy .v2 wCur wPrev hk
+  have hwire : check .v2 "WIRE" wCur wPrev ≠ [] := by decide
+  have hj : check .v2 "WIRE_JSON" wCur wPrev ≠ [] := fun e => hwire (h.2.2 e)
+  have hp : check .v2 "PACKAGE" wCur wPrev ≠ [] := fun e => hj (h.2.1 e)
+  exact ⟨hj, hp, fun e => hp (h.1 e)⟩
+
+end chain
+
+/-! ### the minimal examples delivered with the first version -/
 
 def exEnum : Enum :=
   { name := "E", values := [⟨"E_0", 0⟩], reservedRanges := [], reservedNames := [], closed := false,
